@@ -1354,6 +1354,12 @@ func Script(asserts []*Term) (string, []*Term) {
 		if t.Op == "str.len" {
 			fmt.Fprintf(&sb, "(assert (<= t%d %s))\n", t.ID, MaxStrLen.String())
 		}
+		if t.Op == "str.from_int" {
+			// lemmas (true of every decimal rendering) that spare the solvers a digit-level argument
+			for _, c := range []string{"/", ".", ",", "-"} {
+				fmt.Fprintf(&sb, "(assert (not (str.contains t%d %s)))\n", t.ID, smtStrLit(c))
+			}
+		}
 		if t.Op == "uf" {
 			// facts the simplifier already uses must also be known to the solver
 			if n, ok := ufFixedLen[t.SV]; ok {
@@ -1361,6 +1367,13 @@ func Script(asserts []*Term) (string, []*Term) {
 			}
 			if t.SV == "hex" {
 				fmt.Fprintf(&sb, "(assert (= (str.len t%d) (* 2 (str.len %s))))\n", t.ID, smtExprRef(t.Args[0], named))
+			}
+			if al, ok := ufAlphabet[t.SV]; ok {
+				for _, c := range []string{"/", ".", ",", " ", "-"} {
+					if !strings.Contains(al, c) {
+						fmt.Fprintf(&sb, "(assert (not (str.contains t%d %s)))\n", t.ID, smtStrLit(c))
+					}
+				}
 			}
 		}
 		if t.Op == "uf" {
